@@ -658,6 +658,10 @@ class LMDBStorage(BaseStorage):
         await self.validate_event(event, Config)
 
         if not event.is_ephemeral:
+            with self.db.begin(buffers=True) as txn:
+                if get_event_data(txn, event.id_bytes):
+                    # already stored: nothing to write, nobody to notify
+                    return event, False
             self.writer_queue.put(("add", [event]))
         await self.post_save(event)
         return event, True
